@@ -9,7 +9,7 @@ import (
 	"github.com/bnb-chain/tss-lib/v2/crypto/modproof"
 	"github.com/bnb-chain/tss-lib/v2/crypto/mta"
 	"github.com/bnb-chain/tss-lib/v2/crypto/paillier"
-	
+
 	"verif/harness/internal/val"
 	"verif/harness/internal/vc"
 )
@@ -135,11 +135,21 @@ func proveThenVerify(r *vc.Run, label, proveOp string, proveArgs []val.V, verify
 	return vargs
 }
 
+// c10Light: one session and two witnesses per family (used by C12 for the prover correspondence: the challenge derivation)
+var c10Light bool
+
 func genC10(r *vc.Run) {
 	r.Rule = "every prover of the library run with explicit randomness (the harness builds the byte stream that makes the samplers return the chosen values) on true statements: witnesses {0,1,2,q-1,leading-zero values,random}, sessions {empty,1 byte,32,1000 bytes}, vendored parameter sets and ordered pairs; each proof is verified in memory and after Bytes()/FromBytes; model and implementation must produce identical proof bytes and verdicts; non-trivial = all cases"
+	c10Body(r)
+}
+
+func c10Body(r *vc.Run) {
 	g := rng{r}
 	keys, _ := fixtures()
 	reps := r.Pick(1, 4)
+	if c10Light {
+		reps = 1
+	}
 	// ---- Schnorr and Schnorr-V on both curves
 	for _, cn := range []string{"secp256k1", "ed25519"} {
 		ec := curveByName(cn)
@@ -151,6 +161,9 @@ func genC10(r *vc.Run) {
 		for si, sess := range sessionsC10 {
 			for wi, x := range ws {
 				if !r.Thorough() && (si+wi)%2 == 1 {
+					continue
+				}
+				if c10Light && (si != 2 || wi < 4) {
 					continue
 				}
 				a := g.below(q)
@@ -184,7 +197,10 @@ func genC10(r *vc.Run) {
 						continue
 					}
 					proveThenVerify(r, "schnorrv/"+cn, "schnorrv_prove", []val.V{val.A(cn), val.B(sess), R, val.I(s), val.I(l), val.I(ra), val.I(rb)}, "schnorrv_verify",
-						func(p val.V) []val.V { pl := val.AsList(p); return []val.V{val.A(cn), val.B(sess), V, R, pl[0], pl[1], pl[2]} }, false)
+						func(p val.V) []val.V {
+							pl := val.AsList(p)
+							return []val.V{val.A(cn), val.B(sess), V, R, pl[0], pl[1], pl[2]}
+						}, false)
 				}
 			}
 		}
@@ -193,70 +209,80 @@ func genC10(r *vc.Run) {
 	nk := r.Pick(2, 5)
 	_ = nk
 	for cni, cn := range []string{"secp256k1", "ed25519"} {
-	ec := curveByName(cn)
-	q := ec.Params().N
-	q3 := q3of(q)
-	q7 := mul(mul(q3, q3), q)
-	for ai := 0; ai < nk; ai++ {
-		for bi := 0; bi < nk; bi++ {
-			if ai == bi {
-				continue
-			}
-			if !r.Thorough() && !(ai == 0 && bi == 1) && !(ai == 1 && bi == 0 && cni == 0) {
-				continue
-			}
-			kA, kB := keys[ai], keys[bi]
-			N := kA.PaillierSK.N
-			for rep := 0; rep < reps; rep++ {
-				sess := sessionsC10[(ai+bi+rep)%len(sessionsC10)]
-				for _, m := range []*big.Int{big.NewInt(0), big.NewInt(1), add(q, -1), g.below(q)} {
-					// Alice: c = Enc(m; x) under A's key, proof to B's parameters
-					x := g.unit(N)
-					cv := r.Case("prove/encrypt", true, "pai_encrypt", val.I(N), val.I(m), val.I(x))
-					cA := val.AsList(cv)[1]
-					rnd := []*big.Int{g.below(q3), g.unit(N), g.below(mul(q3, kB.NTildei)), g.below(mul(q, kB.NTildei))}
-					proveThenVerify(r, "alice", "alice_prove", []val.V{val.A(cn), val.I(N), cA, val.I(kB.NTildei), val.I(kB.H1i), val.I(kB.H2i), val.I(m), val.I(x), val.Ints(rnd)},
-						"alice_verify", func(p val.V) []val.V {
-							return []val.V{val.A(cn), val.I(N), val.I(kB.NTildei), val.I(kB.H1i), val.I(kB.H2i), cA, p}
-						}, true)
-					// Bob (multiplier b = m, mask y < q^5): c2 = c1^b * Enc(y; rB)
-					y := g.below(mul(q3, mul(q, q)))
-					rB := g.unit(N)
-					cy, _ := vc.Exec("pai_encrypt", []val.V{val.I(N), val.I(y), val.I(rB)})
-					c1b, _ := vc.Exec("pai_homo_mult", []val.V{val.I(N), val.I(m), cA})
-					c2v, _ := vc.Exec("pai_homo_add", []val.V{val.I(N), val.AsList(c1b)[1], val.AsList(cy)[1]})
-					c2 := val.AsList(c2v)[1]
-					brnd := []*big.Int{g.below(q3), g.below(mul(q, kA.NTildei)), g.below(mul(q, kA.NTildei)), g.below(mul(q3, kA.NTildei)), g.below(mul(q3, kA.NTildei)), g.unit(N), g.below(q7)}
-					proveThenVerify(r, "bob", "bob_prove", []val.V{val.A(cn), val.B(sess), val.I(N), val.I(kA.NTildei), val.I(kA.H1i), val.I(kA.H2i), cA, c2, val.I(m), val.I(y), val.I(rB), val.A("none"), val.Ints(brnd)},
-						"bob_verify", func(p val.V) []val.V {
-							return []val.V{val.A(cn), val.B(sess), val.I(N), val.I(kA.NTildei), val.I(kA.H1i), val.I(kA.H2i), cA, c2, val.AsList(p)[0]}
-						}, true)
-					if m.Sign() != 0 {
-						Bv, _ := vc.Exec("ec_base_mul", []val.V{val.A(cn), val.I(m)})
-						Bp := val.AsList(Bv)[1]
-						proveThenVerify(r, "bobwc", "bob_prove", []val.V{val.A(cn), val.B(sess), val.I(N), val.I(kA.NTildei), val.I(kA.H1i), val.I(kA.H2i), cA, c2, val.I(m), val.I(y), val.I(rB), Bp, val.Ints(brnd)},
-							"bobwc_verify", func(p val.V) []val.V {
-								pl := val.AsList(p)
-								return []val.V{val.A(cn), val.B(sess), val.I(N), val.I(kA.NTildei), val.I(kA.H1i), val.I(kA.H2i), cA, c2, pl[0], pl[1], Bp}
-							}, true)
-					}
+		ec := curveByName(cn)
+		q := ec.Params().N
+		q3 := q3of(q)
+		q7 := mul(mul(q3, q3), q)
+		for ai := 0; ai < nk; ai++ {
+			for bi := 0; bi < nk; bi++ {
+				if ai == bi {
+					continue
 				}
-				// fac proof: A's modulus to B's parameters
-				sq := new(big.Int).Sqrt(N)
-				frnd := []*big.Int{g.below(mul(q3, sq)), g.below(mul(q3, sq)), g.below(mul(q, kB.NTildei)), g.below(mul(q, kB.NTildei)),
-					g.below(mul(mul(q, kB.NTildei), N)), g.unit(mul(mul(q3, kB.NTildei), N)), g.below(mul(q3, kB.NTildei)), g.below(mul(q3, kB.NTildei))}
-				proveThenVerify(r, "fac", "fac_prove", []val.V{val.A(cn), val.B(sess), val.I(N), val.I(kB.NTildei), val.I(kB.H1i), val.I(kB.H2i), val.I(kA.PaillierSK.P), val.I(kA.PaillierSK.Q), val.Ints(frnd)},
-					"fac_verify", func(p val.V) []val.V {
-						return []val.V{val.A(cn), val.B(sess), val.I(N), val.I(kB.NTildei), val.I(kB.H1i), val.I(kB.H2i), p}
-					}, true)
+				if !r.Thorough() && !(ai == 0 && bi == 1) && !(ai == 1 && bi == 0 && cni == 0) {
+					continue
+				}
+				if c10Light && !(ai == 0 && bi == 1) {
+					continue
+				}
+				kA, kB := keys[ai], keys[bi]
+				N := kA.PaillierSK.N
+				for rep := 0; rep < reps; rep++ {
+					sess := sessionsC10[(ai+bi+rep)%len(sessionsC10)]
+					ms := []*big.Int{big.NewInt(0), big.NewInt(1), add(q, -1), g.below(q)}
+					if c10Light {
+						ms = ms[3:]
+					}
+					for _, m := range ms {
+						// Alice: c = Enc(m; x) under A's key, proof to B's parameters
+						x := g.unit(N)
+						cv := r.Case("prove/encrypt", true, "pai_encrypt", val.I(N), val.I(m), val.I(x))
+						cA := val.AsList(cv)[1]
+						rnd := []*big.Int{g.below(q3), g.unit(N), g.below(mul(q3, kB.NTildei)), g.below(mul(q, kB.NTildei))}
+						proveThenVerify(r, "alice", "alice_prove", []val.V{val.A(cn), val.I(N), cA, val.I(kB.NTildei), val.I(kB.H1i), val.I(kB.H2i), val.I(m), val.I(x), val.Ints(rnd)},
+							"alice_verify", func(p val.V) []val.V {
+								return []val.V{val.A(cn), val.I(N), val.I(kB.NTildei), val.I(kB.H1i), val.I(kB.H2i), cA, p}
+							}, true)
+						// Bob (multiplier b = m, mask y < q^5): c2 = c1^b * Enc(y; rB)
+						y := g.below(mul(q3, mul(q, q)))
+						rB := g.unit(N)
+						cy, _ := vc.Exec("pai_encrypt", []val.V{val.I(N), val.I(y), val.I(rB)})
+						c1b, _ := vc.Exec("pai_homo_mult", []val.V{val.I(N), val.I(m), cA})
+						c2v, _ := vc.Exec("pai_homo_add", []val.V{val.I(N), val.AsList(c1b)[1], val.AsList(cy)[1]})
+						c2 := val.AsList(c2v)[1]
+						brnd := []*big.Int{g.below(q3), g.below(mul(q, kA.NTildei)), g.below(mul(q, kA.NTildei)), g.below(mul(q3, kA.NTildei)), g.below(mul(q3, kA.NTildei)), g.unit(N), g.below(q7)}
+						proveThenVerify(r, "bob", "bob_prove", []val.V{val.A(cn), val.B(sess), val.I(N), val.I(kA.NTildei), val.I(kA.H1i), val.I(kA.H2i), cA, c2, val.I(m), val.I(y), val.I(rB), val.A("none"), val.Ints(brnd)},
+							"bob_verify", func(p val.V) []val.V {
+								return []val.V{val.A(cn), val.B(sess), val.I(N), val.I(kA.NTildei), val.I(kA.H1i), val.I(kA.H2i), cA, c2, val.AsList(p)[0]}
+							}, true)
+						if m.Sign() != 0 {
+							Bv, _ := vc.Exec("ec_base_mul", []val.V{val.A(cn), val.I(m)})
+							Bp := val.AsList(Bv)[1]
+							proveThenVerify(r, "bobwc", "bob_prove", []val.V{val.A(cn), val.B(sess), val.I(N), val.I(kA.NTildei), val.I(kA.H1i), val.I(kA.H2i), cA, c2, val.I(m), val.I(y), val.I(rB), Bp, val.Ints(brnd)},
+								"bobwc_verify", func(p val.V) []val.V {
+									pl := val.AsList(p)
+									return []val.V{val.A(cn), val.B(sess), val.I(N), val.I(kA.NTildei), val.I(kA.H1i), val.I(kA.H2i), cA, c2, pl[0], pl[1], Bp}
+								}, true)
+						}
+					}
+					// fac proof: A's modulus to B's parameters
+					sq := new(big.Int).Sqrt(N)
+					frnd := []*big.Int{g.below(mul(q3, sq)), g.below(mul(q3, sq)), g.below(mul(q, kB.NTildei)), g.below(mul(q, kB.NTildei)),
+						g.below(mul(mul(q, kB.NTildei), N)), g.unit(mul(mul(q3, kB.NTildei), N)), g.below(mul(q3, kB.NTildei)), g.below(mul(q3, kB.NTildei))}
+					proveThenVerify(r, "fac", "fac_prove", []val.V{val.A(cn), val.B(sess), val.I(N), val.I(kB.NTildei), val.I(kB.H1i), val.I(kB.H2i), val.I(kA.PaillierSK.P), val.I(kA.PaillierSK.Q), val.Ints(frnd)},
+						"fac_verify", func(p val.V) []val.V {
+							return []val.V{val.A(cn), val.B(sess), val.I(N), val.I(kB.NTildei), val.I(kB.H1i), val.I(kB.H2i), p}
+						}, true)
+				}
 			}
 		}
 	}
-	}
 	for ai := 0; ai < nk; ai++ {
+		if c10Light && ai > 0 {
+			break
+		}
 		kA := keys[ai]
 		N := kA.PaillierSK.N
-		sess := sessionsC10[ai%len(sessionsC10)]
+		sess := sessionsC10[(ai+2)%len(sessionsC10)]
 		// mod proof: find a quadratic non-residue with Jacobi symbol -1
 		var W *big.Int
 		for {
